@@ -278,6 +278,7 @@ func checkC16(ctx *Ctx) {
 			parts := fmtCons(cs)
 			base := "vers:" + scheme + "/" + strings.Join(parts, "|")
 			var probes []string
+			_ = vals
 			for _, c := range cs {
 				probes = append(probes, c.s)
 			}
@@ -323,7 +324,17 @@ func checkC16(ctx *Ctx) {
 						distinct[v+"\x00"+pr] = true
 					}
 					if got := vresString(ok, isErr, pan); got != bs {
-						res.violate(Violation{Eco: scheme, Kind: "variant-changes-result", Input: map[string]any{"base": base, "variant": v, "probe": pr}, Expected: bs, Actual: got})
+						vi := Violation{Eco: scheme, Kind: "variant-changes-result", Input: map[string]any{"base": base, "variant": v, "probe": pr}, Expected: bs, Actual: got}
+						e16 := ecoByName(schemeEco[scheme])
+						var all []any
+						for _, c := range cs {
+							all = append(all, c.v)
+						}
+						if pp := e16.Parse(pr); pp.OK {
+							all = append(all, pp.Val)
+						}
+						classifyOrder(e16, &vi, all...)
+						res.violate(vi)
 					}
 					if len(cases) < 15000 {
 						cases = append(cases, [2]string{v, pr})
